@@ -393,7 +393,20 @@ def _s7_record_transform_columns(program, res):
                                         and f"{spec}.{field}" not in unparse(o.value) and v.id not in {x.id for x in ast.walk(o.value) if isinstance(x, ast.Name)}
                                         for o in ast.walk(m.node)):
                         laid = True
-            if direct or laid:
+            dup_risk = None
+            if cls == "PandasModelBase" and mname == "blocks_to_rowrecs":
+                # pandas: reindex raises on an axis with repeated labels; the pasted blocks repeat a label when a non-strict control table names a cell
+                # twice or the data holds unknown key levels (label NaN for each value column)
+                for c_ in ast.walk(m.node):
+                    if isinstance(c_, ast.Call) and isinstance(c_.func, ast.Attribute) and c_.func.attr == "reindex" and any(kw.arg == "columns" for kw in c_.keywords) \
+                            and "duplicated" not in unparse(c_.func.value) and "drop_duplicates" not in unparse(c_.func.value):
+                        dup_risk = c_
+            if dup_risk is not None:
+                res.fail_at("C08-S7", m, "reindex-on-repeated-labels",
+                            f"`{unparse(dup_risk)[:80]}`: the pasted blocks can repeat a column label (strict=False control table naming a cell twice; two value columns of a key "
+                            f"level the control table does not list, both labelled NaN) and pandas' reindex then raises 'cannot reindex on an axis with duplicate labels' — the "
+                            f"conversion ran before the layout step was added and SQL still converts the table", dup_risk)
+            elif direct or laid:
                 res.ok("C08-S7", f"{cls}.{mname}: a returned frame is laid out by {spec}.{field}")
             else:
                 if mname == "blocks_to_rowrecs":
